@@ -130,6 +130,51 @@ fn main() {
             }
         }
     }
+    // the catalogues of well-formed extensions (multi-entry lists with known and unknown code points in every order): each
+    // value stays where it was
+    {
+        let mut k = vcommon::catalogue::known_extensions();
+        k.extend(vcommon::catalogue::text_extensions());
+        k.extend(vcommon::catalogue::semantic_extensions().into_iter().map(|e| {
+            let mut w = vcommon::en::W::new();
+            w.bytes(&e.1);
+            w
+        }));
+        // name / protocol / group lists in ascending, descending and repeated order of their code points
+        for order in [vec![0u8, 5, 255], vec![255, 5, 0], vec![5, 0], vec![7, 7, 0, 0], vec![1, 0, 1, 0]] {
+            k.push(vcommon::catalogue::ext(0, |w| {
+                w.block(2, "l", |w| {
+                    for (i, t) in order.iter().enumerate() {
+                        w.u8(*t);
+                        w.block(2, "n", |w| {
+                            w.bytes(format!("h{}.example", i).as_bytes());
+                        });
+                    }
+                });
+            }));
+            for t in [10u16, 13] {
+                k.push(vcommon::catalogue::ext(t, |w| {
+                    w.block(2, "l", |w| {
+                        for t in &order {
+                            w.u16(*t as u16 * 257);
+                        }
+                    });
+                }));
+            }
+        }
+        let sx = par_run(run.threads, k.len().div_ceil(16), |c, sink| {
+            for w in k.iter().skip(c * 16).take(16).filter(|w| w.buf.len() < 70000) {
+                for t in [&EXTENSION, &EXTENSIONS] {
+                    if !matches!((t.reference)(&w.buf), Ref::Must(..)) {
+                        continue;
+                    }
+                    let (g, _) = check_case(run.prop, t, &w.buf, sink);
+                    sink.count("extension catalogues", if g.is_ok() { "accepted" } else { "REJECTED" });
+                }
+            }
+        });
+        sink.merge(sx);
+    }
     // encrypted_server_name: suite x group (registered or not, in every combination) x field sizes; key_share: group x size
     {
         let mut k = vcommon::catalogue::esni_grid();
